@@ -271,6 +271,15 @@ pub fn core_parts(rep: &mut Report, props: &[&str], checks: u32) {
                             let c = s.peers[s.peers.len() - 1].addr;
                             s.outages.push(Outage { from: c, to: a, start: start + 2, len: (len - 2).max(1), classes: CLASS_ALL });
                         }
+                        // outages longer than the window stall the starved peer: the same with
+                        // applications that hand over a fresh value when they submit a frame's
+                        // input again after a stalled call (the first value was sent and stays)
+                        if len as usize > g.w && dirs >= 1 && start == 2 {
+                            let mut x = s.clone();
+                            x.peers.iter_mut().for_each(|p| p.input_style = 3);
+                            x.name = format!("{} fresh-value-on-resubmission", x.name);
+                            scns.push(x);
+                        }
                         scns.push(s);
                     }
                 }
@@ -605,6 +614,36 @@ fn lockstep_wait_part(rep: &mut Report, props: &[&str], checks: u32) {
             }
         }
     }
+    // alignment sweep: whether the input for the NEXT frame arrives before, during or after the
+    // wait of the call that simulates the current one depends on delay, latency and on how far
+    // one peer trails the other - every combination, no faults
+    let mut align = Vec::new();
+    for d in [1usize, 2, 3] {
+        for lat in [0, 1, 2, 3] {
+            for offset in 0..4 {
+                for (tp, ms) in [("1+1", None), ("1+1", Some(40u64)), ("2+1", Some(5))] {
+                    let mut s = base_scn("lockstep-wait-align", tp, 0, d, false, Pred::RepeatLast, Program::Changing, lat);
+                    for p in s.peers.iter_mut() {
+                        p.use_wait = true;
+                        p.wait_timeout_ms = ms;
+                    }
+                    for r in 0..offset {
+                        s.scripted_stalls.push((1, 2 + r));
+                    }
+                    s.name = format!("{} wait-timeout={ms:?} peer 1 trails by {offset}", s.name);
+                    s.horizon = 30;
+                    s.probe = 20;
+                    s.checks = checks;
+                    align.push(s);
+                }
+            }
+        }
+    }
+    {
+        let cfg = ExploreCfg { k: Some(0), wall: Duration::from_secs(30), ..Default::default() };
+        let out = explore(&align, &cfg, judge);
+        rep.absorb("W2: lockstep wait calls, alignment sweep (delay 1..3 x latency 0..3 x one peer trailing by 0..3 ticks): packets that are due in the next round arrive in the middle of the wait", out, props, json!({"k": 0, "scenarios": align.len()}));
+    }
     // the wait calls on sessions that are not in lockstep mode return at once
     for (w, ms) in [(2usize, None), (1, Some(40u64)), (8, Some(0))] {
         let mut s = base_scn("lockstep-wait-rollback-session", "1+1", w, 0, false, Pred::RepeatLast, Program::Changing, 1);
@@ -722,6 +761,48 @@ pub fn c04() -> i32 {
         let cfg = ExploreCfg { k: Some(k), wall: Duration::from_secs(if t { 900 } else { 30 }), ..Default::default() };
         let out = explore(&scns, &cfg, &no_judge);
         rep.absorb("K: starvation plus k further packet/tick deviations", out, &props, json!({"k": k, "configs": scns.len()}));
+    }
+    // endpoints that go away while the session is far past frame 0: a spectator that dies, is
+    // disconnected explicitly or stops acknowledging (disconnected by the 128-frame cap), and a
+    // remote player that is disconnected - no load may reach back beyond the window afterwards
+    {
+        let mut scns = Vec::new();
+        for w in [1usize, 2, 8, 12] {
+            for sparse in [false, true] {
+                for how in 0..4 {
+                    let at = 20 + 3 * w as i32;
+                    // (with three peers an explicit disconnect of a live remote makes the survivors
+                    // disagree about the cut-off: C10's space and its known finding, not used here)
+                    let mut s = base_scn("endpoint-lost", if how == 3 { "2+1" } else { "1+1" }, w, 0, sparse, Pred::RepeatLast, Program::Changing, 1);
+                    for p in s.peers.iter_mut() {
+                        p.notify_ms = 100;
+                        p.timeout_ms = 300;
+                    }
+                    let a = s.peers[0].addr;
+                    if how < 3 {
+                        let mut sp = SpecSpec::new(20, a);
+                        sp.notify_ms = 100;
+                        sp.timeout_ms = 300;
+                        s.specs.push(sp);
+                    }
+                    let spec_node = s.peers.len();
+                    match how {
+                        0 => s.script.push(ScriptItem { round: at, node: 0, action: Action::Disconnect { handle: s.num_players } }),
+                        1 => s.script.push(ScriptItem { round: at, node: spec_node, action: Action::Die }),
+                        2 => s.outages.push(Outage { from: 20, to: a, start: at, len: 400, classes: CLASS_INPUT_ACK }),
+                        _ => s.script.push(ScriptItem { round: at, node: 0, action: Action::Disconnect { handle: 2 } }),
+                    }
+                    s.name = format!("{} how={} at round {at}", s.name, ["disconnect_player(spectator)", "spectator dies", "spectator stops acknowledging", "disconnect_player(remote)"][how]);
+                    s.horizon = at + 4;
+                    s.probe = if how == 2 { 200 } else { 60 };
+                    s.checks = CK_C02 | CK_C04;
+                    scns.push(s);
+                }
+            }
+        }
+        let cfg = ExploreCfg { k: Some(0), wall: Duration::from_secs(40), ..Default::default() };
+        let out = explore(&scns, &cfg, &no_judge);
+        rep.absorb("E: an endpoint goes away far past frame 0 (spectator disconnected explicitly / dies / stops acknowledging; remote player disconnected explicitly)", out, &props, json!({"k": 0, "scenarios": scns.len()}));
     }
     stateful_core(&mut rep, &props, CK_CORE, &[0, 1, 2], if t { 7 } else { 5 }, if t { 900 } else { 25 });
     // non-vacuity: the sessions must really have stalled at the limit and resumed
